@@ -89,8 +89,11 @@ def run_spec(job, env, extra_judge=None):
     use_r2 = spec.get("r2", False)
     idx = 0
     import time
+    glob = tuple(tuple(x) for x in spec.get("globals", ()))
     for base in spec["bases"]:
         base = _tuplify(base)
+        if glob:
+            base = base[:3] + (tuple(sorted(base[3] + glob)),)
         for term, nd in (gen.deviated(base, menu, k) if k else [(base, 0)]):
             prog = P.compile_prog(term)
             if nd and need and not need.issubset(prog.features):
